@@ -60,7 +60,7 @@ ASSUMPTIONS = [
 PROBES = ['split_inside_crlf', 'split_inside_multibyte', 'eintr_retried', 'exotic_in_comment',
           'exotic_in_string', 'cr_only_file', 'unterminated_last_line', 'comment_before_eof',
           'zero_graphs', 'nbsp', 'empty_meta_value_crlf_kept', 'utf16', 'decode_error_reference',
-          'yielded_prefix_nonempty', 'interleaved_iterators']
+          'yielded_prefix_nonempty', 'interleaved_iterators', 'stream_copy', 'copy_prefix_nonempty_after_read_error']
 
 CONTAINERS = ['lines', 'lines_lf', 'lines_keep', 'gen', 'tuple', 'stringio', 'simfile', 'simfile_raw', 'simtext',
               'simpath', 'simpath_enc', 'simpath_pathlib', 'realfile', 'iterparse_lines', 'iterparse_simfile']
@@ -109,7 +109,7 @@ def plan(rng, idx, tier):
     spec = rng.weighted([(gmodels.DEFAULT, 4), (gmodels.AMR, 3), (gmodels.NOOP, 1),
                          (gmodels.custom(idx), 1)])
     exotic = rng.pick([0.0, 0.0, 0.0, 0.3, 0.6])
-    mode = rng.weighted([('benign', 6), ('read_fault', 2), ('write_fault', 2), ('interleave', 1)])
+    mode = rng.weighted([('benign', 6), ('read_fault', 2), ('write_fault', 2), ('interleave', 1), ('stream_copy', 2)])
     if tier == 'thorough' and idx % 10 == 0:
         mode = 'enumerate_faults'
     graphs = plan_graphs(rng.sub('graphs'), spec, exotic)
@@ -146,6 +146,13 @@ def plan(rng, idx, tier):
     elif mode == 'write_fault':
         t['fault'] = {'kind': frng.pick(['ENOSPC', 'EIO', 'close']), 'frac': frng.random(),
                       'via': frng.pick(['simfile', 'simpath'])}
+    elif mode == 'stream_copy':
+        # dump(iterdecode(source), sink): a lazy decoder feeding the writer, faults on either side
+        side = frng.weighted([(None, 3), ('read', 3), ('write', 3)])
+        t['copy'] = {'source': frng.pick(['simfile', 'simfile', 'gen', 'simtext', 'graphs_gen']),
+                     'sink': frng.pick(['simfile', 'simpath']), 'side': side, 'frac': frng.random(),
+                     'kind': frng.pick(['EIO', 'EOF']) if side == 'read' else
+                     (frng.pick(['ENOSPC', 'EIO', 'close']) if side == 'write' else None)}
     elif mode == 'interleave':
         n = 2 + frng.randrange(3)
         t['interleave'] = {'streams': [frng.pick(['gen', 'simfile', 'str', 'lines_keep', 'reversed_simfile'])
@@ -284,7 +291,7 @@ def _execute(trace):
             res.violate('container', 'differs-from-string-input', container=name, what=what,
                         text=T, expected=ref, got=c)
 
-    if mode in ('benign', 'read_fault', 'write_fault', 'interleave', 'enumerate_faults'):
+    if mode in ('benign', 'read_fault', 'write_fault', 'interleave', 'enumerate_faults', 'stream_copy'):
         for cname in trace.get('containers', []):
             run_container(cname, trace, T, data, enc, model, fs, rp, compare, Rtc, res)
 
@@ -322,6 +329,8 @@ def _execute(trace):
         write_fault(trace, trace['fault'], R, model, k, res)
     elif mode == 'interleave' and 'interleave' in trace:
         interleave(trace, T, data, enc, model, k, res)
+    elif mode == 'stream_copy' and 'copy' in trace and Rexc is None:
+        stream_copy(trace, trace['copy'], T, data, enc, R, model, k, res)
     elif mode == 'enumerate_faults' and len(data) <= 400:
         for at in range(len(data)):
             for kind in ('EIO', 'EOF'):
@@ -725,6 +734,142 @@ def write_fault(trace, f, R, model, k, res):
                         surfaced=[digest.canon_exc(e) if e else None for e in excs])
         elif durable != clean:
             res.violate('write_fault', 'clean-write-differs', at=at)
+
+
+class _SourceError(OSError):
+    pass
+
+
+def stream_copy(trace, c, T, data, enc, R, model, k, res):
+    """dump(iterdecode(source), sink): the reader is lazy, so reading and writing alternate graph by graph.
+    Fault-free: the sink holds exactly what dump(list) writes.  A fault on either side surfaces from dump() as
+    the injected error, and what became durable in the sink is a prefix of the fault-free output."""
+    import penman
+    d = trace['dump']
+    indent, compact = d.get('indent', -1), d.get('compact', False)
+    clean, cexc = _call(lambda: dump_bytes(R, model, d))
+    if cexc is not None:
+        return
+    side, kind = c.get('side'), c.get('kind')
+    rp = dict(trace.get('read_plan') or {})
+    wp = dict(d.get('plan') or {})
+    at = None
+    if side == 'read':
+        at = _fault_at(c, max(0, len(data) - 1))
+        if at >= len(data):
+            side = None
+    if side == 'write':
+        if kind == 'close':
+            wp['close_error'] = True
+        else:
+            at = _fault_at(c, len(clean))
+            wp.update({'error_at': at, 'error_kind': kind})
+    fs = simio.SimFS(k)
+    src_kind = c.get('source', 'simfile')
+    lines = gtext.split_lines(T, True)
+    fh_in = None
+    line_at = None
+    if src_kind == 'simfile':
+        if side == 'read':
+            rp.update({'error_at': at, 'error_kind': kind})
+        fs.put('/sim/cin.penman', data, rp)
+        fh_in = _reader(fs, '/sim/cin.penman', trace, rp, encoding=enc)
+        source = penman.iterdecode(fh_in, model=model)
+    else:
+        # character-level sources: the fault is "the producer of lines fails / stops after line j"
+        if side == 'read':
+            if lines:
+                line_at = min(len(lines) - 1, int(c.get('frac', 0.5) * len(lines)))
+            else:
+                side = None      # nothing is ever read: no place for the fault
+
+        def produce():
+            for j, ln in enumerate(lines):
+                if line_at is not None and j >= line_at:
+                    if kind == 'EIO':
+                        k.hit('fault.source_generator_error')
+                        raise _SourceError(errno.EIO, 'simulated failure of the line producer')
+                    k.hit('fault.source_generator_stops')
+                    return
+                yield ln
+        if src_kind == 'simtext' and side != 'read':
+            source = penman.iterdecode(SimTextStream(T, (rp.get('chunks') or [4096])), model=model)
+        elif src_kind == 'graphs_gen':
+            # a generator of graphs that decodes each text block on demand
+            source = (g for g in penman.iterdecode(produce(), model=model))
+        else:
+            source = penman.iterdecode(produce(), model=model)
+    fs.plans['/sim/cout.penman'] = wp
+    excs = []
+    if c.get('sink') == 'simpath':
+        with _Patched(fs):
+            _, e = _call(lambda: penman.dump(source, '/sim/cout.penman', model=model, indent=indent, compact=compact))
+        excs.append(e)
+    else:
+        fh_out = fs.open('/sim/cout.penman', 'w', encoding='utf-8')
+        _, e = _call(lambda: penman.dump(source, fh_out, model=model, indent=indent, compact=compact))
+        excs.append(e)
+        _, e2 = _call(fh_out.close)
+        excs.append(e2)
+    if fh_in is not None:
+        _call(fh_in.close)
+    raw = fs.writers.get('/sim/cout.penman')
+    durable = bytes(raw.durable) if raw is not None else None
+    wfired = bool(raw is not None and raw.error_fired)
+    res.hit('probe.stream_copy')
+    res.event('stream_copy', src_kind, c.get('sink'), side, kind, at, line_at, None if durable is None else len(durable),
+              [digest.canon_exc(e) if e else None for e in excs])
+    detail = {'copy': c, 'text': T, 'surfaced': [digest.canon_exc(e) if e else None for e in excs],
+              'durable': None if durable is None else durable.decode('utf-8', 'replace')[-600:]}
+    if durable is None:
+        res.violate('stream_copy', 'sink-never-opened', **detail)
+        return
+    if side is None or (side == 'write' and not wfired):
+        if any(excs):
+            res.violate('stream_copy', 'error-without-fault', **detail)
+        elif durable != clean:
+            res.violate('stream_copy', 'copy-differs-from-dump-of-the-loaded-list', clean=clean.decode('utf-8', 'replace')[-600:],
+                        **detail)
+        return
+    if side == 'write':
+        want_errno = errno.ENOSPC if kind == 'ENOSPC' else errno.EIO
+        if not clean.startswith(durable):
+            res.violate('stream_copy', 'durable-bytes-not-a-prefix', clean=clean.decode('utf-8', 'replace')[-600:], **detail)
+        if not any(isinstance(e, OSError) and e.errno == want_errno for e in excs) or \
+                (c.get('sink') == 'simpath' and not (isinstance(excs[0], OSError) and excs[0].errno == want_errno)):
+            res.violate('stream_copy', 'injected-write-error-did-not-surface', **detail)
+        return
+    # read side
+    if kind == 'EIO':
+        if not (isinstance(excs[0], OSError) and excs[0].errno == errno.EIO):
+            res.violate('stream_copy', 'injected-read-error-did-not-surface', **detail)
+        if not clean.startswith(durable):
+            res.violate('stream_copy', 'durable-bytes-not-a-prefix', clean=clean.decode('utf-8', 'replace')[-600:], **detail)
+        if durable:
+            res.hit('probe.copy_prefix_nonempty_after_read_error')
+        return
+    # the source simply ends early: the copy is the copy of the truncated text
+    if src_kind == 'simfile':
+        try:
+            ptext = data[:at].decode(enc)
+        except UnicodeDecodeError:
+            if not isinstance(excs[0], UnicodeDecodeError):
+                res.violate('stream_copy', 'truncated-sequence-not-reported', **detail)
+            return
+        plines = [ln + '\n' for ln in gtext.split_lines(ptext, False)]
+    else:
+        plines = lines[:line_at]
+    ref, rexc = _call(lambda: list(penman.iterdecode(plines, model=model)))
+    if rexc is not None:
+        if excs[0] is None or type(excs[0]) is not type(rexc):
+            res.violate('stream_copy', 'premature-end-differs-from-truncated-text', expected=digest.canon_exc(rexc), **detail)
+        elif not clean.startswith(durable):
+            res.violate('stream_copy', 'durable-bytes-not-a-prefix', clean=clean.decode('utf-8', 'replace')[-600:], **detail)
+        return
+    want, _ = _call(lambda: dump_bytes(ref, model, d))
+    if any(excs) or durable != want:
+        res.violate('stream_copy', 'premature-end-differs-from-truncated-text',
+                    expected=(want or b'').decode('utf-8', 'replace')[-600:], **detail)
 
 
 def interleave(trace, T, data, enc, model, k, res):
